@@ -172,12 +172,21 @@ func (h *Handler) Handle(req, resp dhcpv6.DHCPv6) (dhcpv6.DHCPv6, bool) {
 		}
 
 		// Then handle the empty hints, by giving out any remaining lease we
-		// have already assigned to this client
+		// have already assigned to this client: one lease for each empty hint,
+		// and everything that is left for the last of them
+		emptyHints := 0
+		for hintIdx, h := range hints {
+			if !(satisfied.Test(uint(hintIdx)) ||
+				(h.Prefix != nil && len(h.Prefix.IP) != 0 && !h.Prefix.IP.Equal(net.IPv6zero))) {
+				emptyHints++
+			}
+		}
 		for hintIdx, h := range hints {
 			if satisfied.Test(uint(hintIdx)) ||
 				(h.Prefix != nil && len(h.Prefix.IP) != 0 && !h.Prefix.IP.Equal(net.IPv6zero)) {
 				continue
 			}
+			emptyHints--
 			for leaseIdx, l := range knownLeases {
 				if givenOut.Test(uint(leaseIdx)) {
 					continue
@@ -200,6 +209,10 @@ func (h *Handler) Handle(req, resp dhcpv6.DHCPv6) (dhcpv6.DHCPv6, bool) {
 				satisfied.Set(uint(hintIdx))
 				givenOut.Set(uint(leaseIdx))
 				addPrefix(iapdResp, knownLeases[leaseIdx])
+				if emptyHints > 0 {
+					// the other leases are for the other empty hints
+					break
+				}
 			}
 		}
 
